@@ -7,11 +7,18 @@
     [Htlc/Proofs.v] — hence everything Props/C03.v and Props/C04.v state about reachable states. *)
 From Irismod Require Import Htlc.Model Htlc.Check Htlc.Proofs.
 
-Lemma wf_op_b_sound o : wf_op_b o = true -> wf_op o.
+Lemma wf_op_b_sound s o : wf_op_b s o = true -> wf_op s o.
 Proof.
-  destruct o as [m| | |]; simpl; try tauto; try discriminate. intros H.
-  apply andb_true_iff in H. destruct H as [H1 H2].
-  apply negb_true_iff in H1, H2. apply Z.eqb_neq in H1, H2. auto.
+  destruct o as [m| | |who P']; simpl; try tauto.
+  - intros H. apply andb_true_iff in H. destruct H as [H1 H2].
+    apply negb_true_iff in H1, H2. apply Z.eqb_neq in H1, H2. auto.
+  - intros H Hok. change (step_ok s (SetParams who P') = true) in Hok. rewrite Hok in H. exact H.
+Qed.
+
+Lemma wf_run_b_sound : forall ops s, wf_run_b s ops = true -> wf_run s ops.
+Proof.
+  induction ops as [|o ops IH]; intros s H; simpl in *; [exact I|].
+  apply andb_true_iff in H. destruct H as [H1 H2]. split; [exact (wf_op_b_sound _ _ H1)|exact (IH _ H2)].
 Qed.
 
 Lemma params_ok_b_sound P : params_ok_b P = true -> params_ok P.
@@ -29,11 +36,17 @@ Proof.
 Qed.
 
 Lemma hyps_b_sound k : hyps_b k = true ->
-  params_ok (k_params k) /\ escrow_empty (bank_of k (k_obs0 k)) /\ Forall wf_op (case_ops k).
+  params_ok (k_params k) /\ escrow_empty (bank_of k (k_obs0 k))
+  /\ wf_run (init (k_params k) (bank_of k (k_obs0 k)) (o_time (k_obs0 k))) (case_ops k).
 Proof.
   unfold hyps_b. intros H. apply andb_true_iff in H. destruct H as [H H3]. apply andb_true_iff in H. destruct H as [H1 H2].
-  split; [exact (params_ok_b_sound _ H1)|]. split; [exact (escrow_empty_b_sound _ H2)|].
-  apply Forall_forall. intros o Hin. rewrite forallb_forall in H3. exact (wf_op_b_sound _ (H3 o Hin)).
+  split; [exact (params_ok_b_sound _ H1)|]. split; [exact (escrow_empty_b_sound _ H2)|exact (wf_run_b_sound _ _ H3)].
+Qed.
+
+Lemma wf_run_firstn : forall ops s n, wf_run s ops -> wf_run s (firstn n ops).
+Proof.
+  induction ops as [|o ops IH]; intros s [|n] W; simpl in *; try exact I.
+  destruct W as [W1 W2]. split; [exact W1|exact (IH _ n W2)].
 Qed.
 
 Lemma In_firstn_In {A} (l : list A) : forall n x, In x (firstn n l) -> In x l.
@@ -47,14 +60,11 @@ Definition case_state (k : case) (n : nat) : state :=
   reachable (k_params k) (bank_of k (k_obs0 k)) (o_time (k_obs0 k)) (firstn n (case_ops k)).
 
 Lemma checked_states_satisfy_invariant k n : hyps_b k = true ->
-  Inv (case_state k n) /\ Strict (case_state k n) /\ Inv_C04 (case_state k n)
-  /\ st_params (case_state k n) = k_params k.
+  Inv (case_state k n) /\ Strict (case_state k n) /\ Inv_C04 (case_state k n).
 Proof.
   intros H. destruct (hyps_b_sound k H) as (HP & HE & W).
-  assert (Wn : Forall wf_op (firstn n (case_ops k))).
-  { apply Forall_forall. intros o Hin. rewrite Forall_forall in W. apply W. exact (In_firstn_In _ _ _ Hin). }
-  destruct (reach_inv _ _ (o_time (k_obs0 k)) _ HP HE Wn) as (I & S & Pm).
-  split; [exact I|]. split; [exact S|]. split; [exact (Inv_C04_of_Inv _ I)|exact Pm].
+  destruct (reach_inv _ _ (o_time (k_obs0 k)) _ HP HE (wf_run_firstn _ _ n W)) as (I & S).
+  split; [exact I|]. split; [exact S|exact (Inv_C04_of_Inv _ I)].
 Qed.
 
 (** [check_from] holds, after [n] steps, exactly [case_state k n]: it starts from [init] of the case's
